@@ -16,7 +16,7 @@ From mathcomp Require Import ssrZ.
 Set Warnings "notation-overridden,ambiguous-paths".
 From LP Require Import AlgNum AlgNumProofs RootIsoSort.
 From LP Require Import UPolySpec RootIsoProofs SturmItv.
-From LP Require Import Scalar RefAlg RefAlgSpec RefAlgValid RootIsoFull RootIsoBisect RootIsoEnd.
+From LP Require Import Scalar RefAlg RefAlgSpec RefAlgValid RootIsoFull RootIsoBisect RootIsoEnd RootIsoDiv.
 Import GRing.Theory Num.Theory.
 Local Open Scope ring_scope.
 
@@ -330,6 +330,17 @@ Theorem C06_libpoly_isolation_end_to_end_items : forall (R : rcfType) (fuel : na
   forall i, (i < size s)%N -> Den (nth (an_point an_dzero) s i) (nth 0 (rootsR (PR R f)) i).
 Proof. by move=> R fuel f s fz E; apply: Dens_nth; exact: lp_roots_isolate_sorted_exact E. Qed.
 Print Assumptions C06_libpoly_isolation_end_to_end_items.
+
+(* the defining polynomial of every interval item of the answer divides f (in R[x], i.e. over Q): the isolation
+   uses ppp of a square-free factor, refinement keeps the polynomial, the equal-interval branch of the comparison
+   replaces it by a gcd.  an_poks P s: P holds of the polynomial of every interval item of s.  Together with
+   C06_libpoly_isolation_end_to_end: a point item is a dyadic rational root of f; an interval item is a
+   polynomial dividing f with an open dyadic interval containing exactly one real root of it - the denoted one *)
+Theorem C06_libpoly_isolation_end_to_end_divides : forall (R : rcfType) (fuel : nat) (f : list Z) (s : list anum),
+  pis_zero f = false -> lp_roots_isolate_sorted fuel f = Some s ->
+  an_poks (fun p => PR R p %| PR R f) s.
+Proof. exact lp_roots_isolate_sorted_divides. Qed.
+Print Assumptions C06_libpoly_isolation_end_to_end_divides.
 
 (* independent of the sort: the UNSORTED answer of the isolation model denotes a permutation of the roots *)
 Theorem C06_libpoly_isolation_perm : forall (R : rcfType) (fuel : nat) (f : list Z) (l : list ri_anum),
